@@ -14,6 +14,25 @@ LEGAL_NAMES = ["x", "_a", "x1", "9", "self", "cls", "kwargs", "args", "variable"
                "\u00b5", "\uff58", "x\u00b2", "\ufb01", "\u00aa", "\u212b", "x\u0660"]
 
 
+def source_literals(model) -> list:
+    """Identifier-like string literals that occur in the package's own code (placeholders, sentinel
+    values, dictionary keys ...): legal variable names that could collide with a magic value."""
+    import ast
+    import re
+    out = []
+    for mod in model.modules.values():
+        docs = set()
+        for node in ast.walk(mod.tree):
+            if isinstance(node, ast.Expr) and isinstance(node.value, ast.Constant):
+                docs.add(id(node.value))
+        for node in ast.walk(mod.tree):
+            if isinstance(node, ast.Constant) and isinstance(node.value, str) and id(node) not in docs:
+                s = node.value
+                if 0 < len(s) <= 40 and re.fullmatch(r"\w+", s) and s not in out:
+                    out.append(s)
+    return sorted(out)
+
+
 def coord_case(args):
     kind, tree, coords, extra = args
     model = load_model()
@@ -134,7 +153,9 @@ def check(rep):
                       "Differential(early).at.component", "Differential.component_at"):
             for var in (vs[:1] + ["not_there"]):
                 cases.append(("route", t, {**full, "extra1": 7}, (route, var), "no-CoordinateMissing"))
-    for nm in LEGAL_NAMES:
+    literals = [s for s in source_literals(model) if s not in LEGAL_NAMES]
+    rep.extra["names_taken_from_string_literals_in_the_source"] = literals
+    for nm in LEGAL_NAMES + literals:
         cases.append(("name", None, None, nm, "usable"))
     results = pmap(coord_case, [(k, t, c, e) for (k, t, c, e, _w) in cases], chunksize=4)
     per = {}
